@@ -2,6 +2,7 @@ import Hive.Proofs.WorkerPoolLog
 import Hive.Proofs.WorkerPoolGroup
 import Hive.Proofs.WorkerPoolGroupSd
 import Hive.Proofs.WorkerPoolSync
+import Hive.Proofs.WorkerPoolDebounce
 import Hive.Proofs.WorkerPoolTerm
 import Hive.Gen.C16_Skel
 import Hive.Model.WorkerPoolSched
@@ -417,6 +418,59 @@ theorem C16_counter_update (c : Ctr) (d : Int) (ds : List Int) :
     simp [h, this]
 
 end Hive.WPS
+
+/-! ### `WorkerPool.DebounceFunc` -/
+namespace Hive.WPD
+open Hive.Conc
+
+/-- **DebounceFunc.**  Over any number of goroutines calling the debounce function any number of times, any number of
+its tasks started by the workers (the others — rejected, cancelled, not yet dispatched — stay where they are) and every
+interleaving, in every reachable configuration:
+* the `workerFunc`s are executed in strictly increasing order of invocation — so each at most once —, and only ones that
+  were handed in;
+* at most one task is between `execMutex.Lock()` and `Unlock()`: the functions never overlap;
+* the LATEST invocation is never skipped: once its task has finished, its function has been executed (earlier ones may
+  be dropped — that is the debouncing);
+* the executed invocations satisfy the trace predicate `execsOk` the driver applies to the `x k` events of the real code. -/
+theorem C16_debounce (ts : List Thr) (c : Cfg St Thr) (hr : Reach sys ({}, ts) c) :
+    c.1.execs.Pairwise (· < ·) ∧
+    (∀ e ∈ c.1.execs, 1 ≤ e ∧ e ≤ c.1.calls.length) ∧
+    c.1.calls.countP Pc.holds ≤ 1 ∧
+    (∀ pc, c.1.calls[c.1.calls.length - 1]? = some pc → pc.finished = true → c.1.calls.length ∈ c.1.execs) ∧
+    execsOk c.1.calls.length 0 c.1.execs = true := by
+  have h := inv_reach ts c hr
+  have hb : ∀ e ∈ c.1.execs, 1 ≤ e ∧ e ≤ c.1.calls.length := by
+    intro e he
+    obtain ⟨h1, pc, hc, _⟩ := h.logged e he
+    have := Hive.WP.lt_of_get hc
+    exact ⟨h1, by omega⟩
+  refine ⟨h.sorted, hb, ?_, ?_, ?_⟩
+  · have hm := h.mutex
+    cases hh : c.1.held with
+    | true => rw [hh, Hive.WP.b2n_true] at hm; omega
+    | false => rw [hh, Hive.WP.b2n_false] at hm; omega
+  · intro pc hpc hfin
+    have hlt := Hive.WP.lt_of_get hpc
+    cases pc with
+    | doneRan =>
+      have := h.ranLogged _ _ hpc rfl
+      have e : c.1.calls.length - 1 + 1 = c.1.calls.length := by omega
+      rwa [e] at this
+    | doneSkip =>
+      have := h.skipped _ _ hpc rfl
+      omega
+    | _ => simp [Pc.finished] at hfin
+  · exact execsOk_of _ _ 0 h.sorted (fun e he => ⟨(hb e he).1, (hb e he).2⟩)
+
+/-- Non-vacuity: two callers, three calls; the task of call 1 passes its first check before call 2 is made and is
+dropped at its second check; call 2 is executed, then call 3 is made and executed. -/
+theorem C16_debounce_example :
+    let c := runSched sys ({}, [.caller 2, .caller 1, .runner])
+      [(0, 0), (2, 0), (1, 0), (2, 0), (2, 0), (2, 0), (2, 0), (2, 0), (2, 0), (2, 0), (0, 0), (2, 0), (2, 0), (2, 0), (2, 0)]
+    c.1.execs = [2, 3] ∧ c.1.calls = [.doneSkip, .doneRan, .doneRan] ∧ c.1.held = false := by
+  decide
+
+end Hive.WPD
 
 /-! ### Regenerated tie: the synchronisation skeletons the protocol model was written against
 
